@@ -48,6 +48,7 @@ inductive Ev
   | unannounce
   | shutdown
   | service               -- the daemon emits a browse result (a daemon that holds a browser for this provider does)
+  | tickFlaky             -- a reconnect attempt whose Setup succeeds and whose next daemon call fails
   deriving DecidableEq, Repr
 
 /-- Start: set up, start, create the browser, make sure the listener runs -/
@@ -103,6 +104,13 @@ def step (c : Cfg) (s : S) : Ev → S
     -- Unannounce, then the server is shut down
     { s with wanted := none, groupRef := false, published := none, session := false, browsing := false }
 
+  | .tickFlaky =>
+    match s.loops with
+    | [] => s
+    | _ :: rest =>
+      if c.reconnectRespectsShutdown && s.manual then { s with loops := rest }
+      else if !s.up then (doStart s).1
+      else { s with manual := false, started := true }   -- the server object is shut down again, the loop keeps trying
   | .service =>
     if !s.browsing then s
     else if s.listenerAlive then { s with reports := s.reports + 1 }
